@@ -1,6 +1,6 @@
 """C16 — the type space stays consistent across any history of additions (explicit-state search).
 State = history of API calls on one TypeSpace, rebuilt by replaying on the real code (a snapshot after every op).
-Breadth-first over all histories to depth d over a 14-op alphabet, with repeats. Invariants after every transition:
+Breadth-first over all histories to depth d over a 18-op alphabet, with repeats. Invariants after every transition:
  I1 every type id seen earlier still resolves with the same (name, ident, structure);
  I2 repeating a type addition returns the same ident and adds no items;
  I3 no two items of one kind+name in the rendered stream, stream parses;
@@ -29,11 +29,16 @@ D3 = {"R1": obj({"r": {"$ref": "#/definitions/R2"}}), "R2": obj({"r": {"$ref": "
 D4 = {"WInner": obj({"z": STR}, ["z"])}   # coincides with the inline type name W.inner generates in D1
 D5 = {"UsesP": obj({"p": {"$ref": "#/definitions/P"}, "ps": {"type": "array", "items": {"$ref": "#/definitions/Al"}}}, ["p"]),
       "Loop": obj({"again": {"$ref": "#/definitions/Loop"}, "w": {"$ref": "#/definitions/W"}})}   # refers to definitions of an EARLIER batch (D1)
+# a non-required member {$ref, default} whose target sorts AFTER the referring definition: its conversion must not depend on whether
+# the target was converted earlier (same batch in either listing order, or an earlier call)
+D6 = {"Apple": obj({"z": {"$ref": "#/definitions/Zest", "default": "b"}, "y": {"default": "a", "allOf": [{"$ref": "#/definitions/Zest"}]}}),
+      "Zest": {"type": "string", "enum": ["a", "b"]}}
 D12 = dict(D1)
 D12.update(D2)
 
 TIT = dict(obj({"a": INT}), title="Tit")
 OPS = {
+    "R6": {"refs": D6}, "R6r": {"refs": [["Zest", D6["Zest"]], ["Apple", D6["Apple"]]]}, "R6z": {"refs": {"Zest": D6["Zest"]}}, "R6a": {"refs": {"Apple": D6["Apple"]}},
     "R1": {"refs": D1}, "R2": {"refs": D2}, "R3": {"refs": D3}, "R4": {"refs": D4}, "R5": {"refs": D5}, "R12": {"refs": D12},
     "ROOT1": {"root": dict(obj({"p": {"$ref": "#/definitions/P"}}), title="Root1", definitions=D1)},
     "ROOT2": {"root": dict(obj({"t": TIT}), title="Root2", definitions=D2)},
@@ -46,7 +51,8 @@ OPS = {
 }
 ALPHABET = list(OPS)
 SUB6 = ["R1", "R3", "T1", "T3", "T4", "T5"]
-DEFINES = {"R5": set(D5), "R1": set(D1), "R2": set(D2), "R3": set(D3), "R4": set(D4), "R12": set(D12), "ROOT1": set(D1) | {"Root1"}, "ROOT2": set(D2) | {"Root2"},
+SUB_ORDER = ["R6", "R6r", "R6z", "R6a", "R2", "T1"]
+DEFINES = {"R6": set(D6), "R6r": set(D6), "R6z": {"Zest"}, "R6a": {"Apple"}, "R5": set(D5), "R1": set(D1), "R2": set(D2), "R3": set(D3), "R4": set(D4), "R12": set(D12), "ROOT1": set(D1) | {"Root1"}, "ROOT2": set(D2) | {"Root2"},
            "ROOT3": {"Root3"}}
 ROOT_TITLE = {"ROOT1": "Root1", "ROOT2": "Root2", "ROOT3": "Root3"}
 NEEDS_D1 = {"T4", "R5"}
@@ -63,6 +69,8 @@ TYPE_OPS = {"T1", "T2", "T3", "T4", "T5"}
 def enabled(hist, op):
     if op in NEEDS_D1 and not (set(hist) & PROVIDES_D1):
         return False
+    if op == "R6a" and not (set(hist) & {"R6z"}):
+        return False   # Apple refers to Zest
     return True
 
 
@@ -83,10 +91,22 @@ def cases(tier, seed):
         more = []
         tmp, out = out, more
         rec([], SUB6, 4)
+        rec([], SUB_ORDER, 3)
         out = tmp + [c for c in more if tuple(c["history"]) not in seen]
     else:
-        rec([], ALPHABET, 5)
-    return out
+        rec([], ALPHABET, 4)
+        seen = {tuple(c["history"]) for c in out}
+        more = []
+        tmp, out = out, more
+        rec([], SUB6 + ["ROOT3", "R6"], 5)
+        rec([], SUB_ORDER, 5)
+        out = tmp + [c for c in more if tuple(c["history"]) not in seen]
+    seen2, res_ = set(), []
+    for c in out:
+        if c["key"] not in seen2:
+            seen2.add(c["key"])
+            res_.append(c)
+    return res_
 
 
 def type_sig(t):
@@ -237,6 +257,17 @@ def execute(cases_, tier, seed):
                     res.violations.append(Violation(k, "I4-order-dependent", "%s vs %s: different definitions %s" % (list(h), list(sw), [d[:3] for d in diff[:3]]),
                                                     {"history": list(h), "key": k, "other": list(sw)}, expected="same set of definitions", observed=[list(d) for d in diff[:10]],
                                                     features={"len": len(h)}))
+        for whole, parts in (("R6", ("R6z", "R6a")), ("R6", ("R6r",)), ("R6r", ("R6z", "R6a"))):
+            if len(h) >= 1 and h[-1] == whole:
+                sp = h[:-1] + parts
+                if sp in final_items:
+                    n_comm += 1
+                    if final_items[sp] != items:
+                        diff = sorted(set(items) ^ set(final_items[sp]))
+                        k = key_of(["C16", list(h)])
+                        res.violations.append(Violation(k, "I4-split-dependent", "%s vs %s: different definitions %s" % (list(h), list(sp), [d[:3] for d in diff[:3]]),
+                                                        {"history": list(h), "key": k, "other": list(sp)}, expected="same set of definitions", observed=[list(d) for d in diff[:10]],
+                                                        features={"len": len(h)}))
         if len(h) >= 1 and h[-1] == "R12":
             sp = h[:-1] + ("R1", "R2")
             if sp in final_items:
@@ -251,7 +282,7 @@ def execute(cases_, tier, seed):
     res.evaluations = len(cases_)
     res.extra.update({"histories": len(cases_), "commutation_checks": n_comm, "max_depth": max(len(c["history"]) for c in cases_)})
     res.samples = [c["history"] for c in cases_[:: max(1, len(cases_) // 5)]][:5]
-    res.bound = "tier=%s: all histories over the 14-op alphabet to depth %s" % (tier, "3 (and depth 4 over the 6-op sub-alphabet)" if tier == "quick" else "5")
+    res.bound = "tier=%s: all histories over the 18-op alphabet to depth %s" % (tier, "3 (and depth 4 over a 6-op, depth 3 over the 6-op ordering sub-alphabet)" if tier == "quick" else "4 (and depth 5 over an 8-op and the 6-op ordering sub-alphabet)")
     res.assumptions = ["histories are not extended past an op that returns Err (documented: the space is unspecified after an error)"]
     if len(cases_) > 50 and (len(canon_states) < 30 or n_comm < 10):
         raise MachineryError("vacuity guard: states=%d commutation checks=%d" % (len(canon_states), n_comm))
